@@ -374,3 +374,118 @@ pub(crate) fn k_struct_decode_constant_verbatim() {
 
 // FIXED / LPC subframes: built and removed -- `samples.extend(residuals.residuals())` through two layers of
 // Box<dyn Iterator> + flat_map does not finish in CBMC even for one residual (400 s timeout; 4 residuals: out of memory).
+
+// ---- structural read_subframe: a negative LPC shift is rejected, exactly as the streaming decoder does ----
+// (the stream ends right after the shift so that a parser that wrongly goes on gets an I/O error at once)
+macro_rules! k_struct_sub_lpc_shift {
+    ($name:ident, $order:expr) => {
+        #[kani::proof]
+        #[kani::unwind(6)]
+        pub(crate) fn $name() {
+            let mut tape: Tape<10> = Tape::new();
+            specenc::gen_subframe_header(&mut tape, specenc::t_lpc($order), false, 0);
+            let mut i = 0;
+            while i < $order {
+                let wu: i16 = kani::any();
+                tape.preload(K_S, 16, wu as i64 as u64);
+                i += 1;
+            }
+            let precision: u8 = kani::any();
+            kani::assume(precision < 15);
+            tape.preload(K_U, 4, precision as u64);
+            let shift: i8 = kani::any();
+            kani::assume(shift >= -16 && shift <= 15);
+            tape.preload(K_S, 5, shift as i64 as u64);
+            tape.record = false;
+            tape.failed = true;
+            let res = <Subframe<i32> as FromBitStreamUsing>::from_reader(&mut tape, (16u16, SignedBitCount::new::<16>()));
+            let neg = matches!(res, Err(Error::NegativeLpcShift));
+            let io = matches!(res, Err(Error::Io(_)));
+            std::mem::forget(res);
+            vk_undecided!(!tape.shape_mismatch, "structural subframe parser read other fields than RFC 9639 9.2.6 lists before the shift");
+            vk_assert!(neg == (shift < 0), "structural parser rejects an LPC subframe iff its 5-bit shift is negative (RFC 9639 9.2.6), like the streaming decoder");
+            vk_assert!(neg || io, "a non-negative shift lets the parser go on to the coefficients (which are missing here)");
+        }
+    };
+}
+k_struct_sub_lpc_shift!(k_struct_sub_lpc_shift_o1, 1);
+k_struct_sub_lpc_shift!(k_struct_sub_lpc_shift_o2, 2);
+
+// ---- structural read_subframe on CONSTANT / VERBATIM subframes and its rejections -------------------------
+macro_rules! k_struct_sub_parse_simple {
+    ($name:ident, $has_wasted:expr) => {
+        #[kani::proof]
+        #[kani::unwind(6)]
+        pub(crate) fn $name() {
+            const BPS: u32 = 12;
+            let wasted: u32 = if $has_wasted { kani::any() } else { 0 };
+            if $has_wasted { kani::assume(wasted >= 1 && wasted < BPS); }
+            let eff = BPS - wasted;
+            let v: [i16; 3] = kani::any();
+            let fits = |x: i16| (x as i64) >= -(1i64 << (eff - 1)) && (x as i64) < (1i64 << (eff - 1));
+            kani::assume(fits(v[0]) && fits(v[1]) && fits(v[2]));
+            // CONSTANT
+            {
+                let mut tape: Tape<8> = Tape::new();
+                specenc::gen_subframe_header(&mut tape, specenc::T_CONSTANT, $has_wasted, wasted);
+                tape.preload(K_S, eff, v[0] as i64 as u64);
+                tape.record = false;
+                tape.failed = true;
+                let res = <Subframe<i32> as FromBitStreamUsing>::from_reader(&mut tape, (3u16, SignedBitCount::new::<BPS>()));
+                let ok = matches!(&res, Ok(Subframe::Constant { sample, block_size: 3, wasted_bps }) if *sample == v[0] as i32 && *wasted_bps == wasted);
+                std::mem::forget(res);
+                vk_undecided!(!tape.shape_mismatch, "structural parser read other fields than RFC 9639 9.2.3 lists");
+                vk_assert!(ok && tape.consumed_all(), "structural parser: CONSTANT subframe = one sample of (bps - wasted) bits, block size from the frame header, wasted bits kept");
+            }
+            // VERBATIM
+            let mut tape: Tape<10> = Tape::new();
+            specenc::gen_subframe_header(&mut tape, specenc::T_VERBATIM, $has_wasted, wasted);
+            tape.preload(K_S, eff, v[0] as i64 as u64);
+            tape.preload(K_S, eff, v[1] as i64 as u64);
+            tape.preload(K_S, eff, v[2] as i64 as u64);
+            tape.record = false;
+            tape.failed = true;
+            let res = <Subframe<i32> as FromBitStreamUsing>::from_reader(&mut tape, (3u16, SignedBitCount::new::<BPS>()));
+            let ok = match &res {
+                Ok(Subframe::Verbatim { samples, wasted_bps }) => samples.len() == 3 && samples[0] == v[0] as i32 && samples[1] == v[1] as i32 && samples[2] == v[2] as i32 && *wasted_bps == wasted,
+                _ => false,
+            };
+            std::mem::forget(res);
+            vk_undecided!(!tape.shape_mismatch, "structural parser read other fields than RFC 9639 9.2.4 lists");
+            vk_assert!(ok && tape.consumed_all(), "structural parser: VERBATIM subframe = block-size samples of (bps - wasted) bits in order, wasted bits kept");
+        }
+    };
+}
+k_struct_sub_parse_simple!(k_struct_sub_parse_simple_nowaste, false);
+k_struct_sub_parse_simple!(k_struct_sub_parse_simple_wasted, true);
+
+#[kani::proof]
+#[kani::unwind(6)]
+pub(crate) fn k_struct_sub_rejects() {
+    // (reserved type codes and the pad bit are rejected by SubframeHeader::from_reader, which the streaming decoder shares: K-sub_total_*)
+    // wasted bits
+    let k: u32 = kani::any();
+    kani::assume(k >= 1 && k <= 20);
+    let mut tape: Tape<8> = Tape::new();
+    specenc::gen_subframe_header(&mut tape, specenc::T_VERBATIM, true, k);
+    tape.record = false;
+    tape.failed = true;
+    let res = <Subframe<i32> as FromBitStreamUsing>::from_reader(&mut tape, (16u16, SignedBitCount::new::<12>()));
+    let excessive = matches!(res, Err(Error::ExcessiveWastedBits));
+    std::mem::forget(res);
+    vk_assert!(excessive == (k >= 12), "structural parser rejects a wasted-bits count that leaves no bit for the samples, and only that");
+
+    // QLP precision code 0b1111 is invalid
+    let p: u8 = kani::any();
+    kani::assume(p < 16);
+    let mut tape: Tape<8> = Tape::new();
+    specenc::gen_subframe_header(&mut tape, specenc::t_lpc(1), false, 0);
+    tape.preload(K_S, 16, 5);
+    tape.preload(K_U, 4, p as u64);
+    tape.record = false;
+    tape.failed = true;
+    let res = <Subframe<i32> as FromBitStreamUsing>::from_reader(&mut tape, (16u16, SignedBitCount::new::<16>()));
+    let badp = matches!(res, Err(Error::InvalidQlpPrecision));
+    std::mem::forget(res);
+    vk_assert!(badp == (p == 15), "structural parser rejects exactly the reserved QLP precision code 1111 (RFC 9639 9.2.6)");
+}
